@@ -1,7 +1,7 @@
 //! C16: cell-size helper bounds really are bounds -- shape S.
 
 use crate::alpha::*;
-use crate::cone::{ref_start_depth, thresholds, KF1};
+use crate::cone::{ref_start_depth, thresholds, KF1, KF1_BAND_LO};
 use crate::refm::*;
 use crate::report::*;
 use serde_json::{json, Map, Value};
@@ -207,7 +207,7 @@ pub fn check_claim3(lon: f64, lat: f64, r: f64, listed_kf1: bool, part: &mut Par
     if !inside {
       let t = thresholds();
       let ratio = r / t[k as usize];
-      if listed_kf1 && ratio >= 0.98 && ratio < 1.0 && lat.abs() + r >= transition_lat() {
+      if listed_kf1 && ratio >= KF1_BAND_LO && ratio < 1.0 && lat.abs() + r >= transition_lat() {
         return V3::Known(case3(lon, lat, r));
       }
       return V3::Bad(Viol {
@@ -222,6 +222,62 @@ pub fn check_claim3(lon: f64, lat: f64, r: f64, listed_kf1: bool, part: &mut Par
   V3::Ok
 }
 
+
+/// Points of one edge of a cell (0 = SE, 1 = NW, 2 = SW, 3 = NE), shifted outwards by `out` lattice
+/// units, as (lon, lat).
+pub fn edge_points(k: u8, h: u64, edge: usize, m: usize, out: f64) -> Vec<(f64, f64)> {
+  let n = nside(k) as f64;
+  let (cx, cy) = center_lattice(k, h);
+  let (cx, cy) = (cx as f64, cy as f64);
+  (0..=m)
+    .map(|i| {
+      let t = i as f64 / m as f64;
+      let (x, y) = match edge {
+        0 => (cx + t + out, cy - 1.0 + t - out),
+        1 => (cx - 1.0 + t - out, cy + t + out),
+        2 => (cx - t - out, cy - 1.0 + t - out),
+        _ => (cx + 1.0 - t + out, cy + t + out),
+      };
+      ref_unproj((x / n).rem_euclid(8.0), (y / n).max(-2.0).min(2.0))
+    })
+    .collect()
+}
+
+/// Smallest distance between two opposite edges of a cell (sampled: an upper bound of the true
+/// minimum, good enough to LOCATE the narrowest cells): (distance, edge pair 0 = SE/NW, 1 = SW/NE).
+fn edge_to_opposite_edge(k: u8, h: u64, m: usize) -> (f64, usize) {
+  let mut best = (f64::INFINITY, 0);
+  for pair in 0..2usize {
+    let a: Vec<[f64; 3]> = edge_points(k, h, 2 * pair, m, 0.0).iter().map(|&(l, b)| unit_vec(l, b)).collect();
+    let b: Vec<[f64; 3]> = edge_points(k, h, 2 * pair + 1, m, 0.0).iter().map(|&(l, b)| unit_vec(l, b)).collect();
+    for p in &a {
+      for q in &b {
+        let d = ang_dist_vec(p, q);
+        if d < best.0 {
+          best = (d, pair);
+        }
+      }
+    }
+  }
+  best
+}
+
+/// The narrowest cells of depth k (exhaustive over the cells of one base cell per region and its
+/// mirror images by symmetry): (cell, edge pair, width).
+pub fn narrowest_cells(k: u8, keep: usize) -> Vec<(u64, usize, f64)> {
+  let per_base = 1u64 << (2 * k as u32);
+  let mut all: Vec<(u64, usize, f64)> = vec![];
+  for base in [0u64, 5, 10] {
+    for h in base * per_base..(base + 1) * per_base {
+      let (d, pair) = edge_to_opposite_edge(k, h, 8);
+      all.push((h, pair, d));
+    }
+  }
+  all.sort_by(|a, b| a.2.partial_cmp(&b.2).unwrap());
+  all.truncate(keep);
+  all
+}
+
 pub fn run(ctx: &Ctx) -> i32 {
   let quick = ctx.quick();
   let listed_kf1 = ctx.findings.listed("C16", KF1);
@@ -232,6 +288,7 @@ pub fn run(ctx: &Ctx) -> i32 {
     C1Class(u8),
     C2(u8),
     C3(u8),
+    C3Narrow(u8),
   }
   let mut jobs = vec![];
   for d in 0..=d1 {
@@ -251,6 +308,11 @@ pub fn run(ctx: &Ctx) -> i32 {
   }
   for k in 0..30u8 {
     jobs.push(Job::C3(k));
+  }
+  // claim 3 at the NARROWEST cells of a depth (located by exhaustive search): cones centred just
+  // outside an edge of such a cell cross it entirely first
+  for k in 0..=(if quick { 6u8 } else { 8 }) {
+    jobs.push(Job::C3Narrow(k));
   }
   let positions2: Vec<(f64, f64)> = {
     let mut v: Vec<(f64, f64)> = plane_nodes(2).into_iter().map(|(x, y)| ref_unproj(x, y)).collect();
@@ -296,6 +358,24 @@ pub fn run(ctx: &Ctx) -> i32 {
         }
         if *d == 2 {
           part.sample(json!({"claim": 2, "depth": d, "lon": positions2[5].0, "lat": positions2[5].1, "radius": 0.2}));
+        }
+      }
+      Job::C3Narrow(k) => {
+        let t = thresholds();
+        for (h, pair, w) in narrowest_cells(*k, 3) {
+          part.sample(json!({"claim": 3, "narrowest_cell": h.to_string(), "depth": k, "edge_to_opposite_edge": w, "ratio_to_limit": w / t[*k as usize]}));
+          for edge in [2 * pair, 2 * pair + 1] {
+            for (lon, lat) in edge_points(*k, h, edge, 16, 1e-3) {
+              for f in [0.9, 0.95, 0.965, 0.975, 0.985, 0.995, 0.999999] {
+                part.stratum("claim3-narrowest-cells", 1, 2);
+                match check_claim3(lon, lat, t[*k as usize] * f, listed_kf1, &mut part) {
+                  V3::Ok => {}
+                  V3::Known(ex) => part.known(KF1, ex),
+                  V3::Bad(v) => part.viol(v),
+                }
+              }
+            }
+          }
         }
       }
       Job::C3(k) => {
